@@ -237,7 +237,8 @@ class ExprGen:
         for name, m in lang.meta.items():
             k = m["kind"]
             if k in ("m", "h", "c") and m["params"] and lang.sub(m["res"], want):
-                cands.append(name)
+                if self.feasible(m) or rng.random() < 0.03:
+                    cands.append(name)
             elif k in ("i", "j", "p") and not isinstance(want, tuple) \
                     and (lang.sub(want, m["bound"]) or lang.sub(m["bound"], want)):
                 cands.append(name)
@@ -282,9 +283,8 @@ class ExprGen:
             return self.fun(p, depth)
         return self.data(p, depth)
 
-    def fun(self, want, depth):
-        """an expression of function type: params >= wanted params, result <= wanted result"""
-        rng, lang = self.rng, self.lang
+    def fun_cands(self, want):
+        lang = self.lang
         ps, res = want[1], want[2]
         cands = []
         for name, m in lang.meta.items():
@@ -301,15 +301,27 @@ class ExprGen:
         for name, m in lang.meta.items():
             if m["kind"] == "i" and len(ps) == 1 and lang.sub(ps[0], m["bound"]) and lang.sub(ps[0], res):
                 cands.append((name, []))
+        return cands
+
+    def feasible(self, m) -> bool:
+        """every function-typed parameter can be supplied by a bare operator"""
+        return all(any(not pre for _, pre in self.fun_cands(p))
+                   for p in m["params"] if isinstance(p, tuple) and p[0] == "fn")
+
+    def fun(self, want, depth):
+        """an expression of function type: params >= wanted params, result <= wanted result"""
+        rng, lang = self.rng, self.lang
+        cands = self.fun_cands(want)
         if not cands:
             return rng.choice(list(lang.meta))        # probably ill-typed: a rejection
         full = [c for c in cands if not c[1]]
         if full and (depth <= 0 or rng.random() < 0.6):
             return rng.choice(full)[0]
-        if depth <= 0:
-            cands = [c for c in cands if not any(isinstance(t, tuple) and t[0] == "fn" for t in c[1])]
-            if not cands:
-                return rng.choice(list(lang.meta))
+        cands = [c for c in cands if all(not (isinstance(t, tuple) and t[0] == "fn") or
+                                         (depth > 0 and any(not pre for _, pre in self.fun_cands(t)))
+                                         for t in c[1])]
+        if not cands:
+            return rng.choice(full)[0] if full else rng.choice(list(lang.meta))
         name, pre = rng.choice(cands)
         if not pre:
             return name
@@ -409,7 +421,7 @@ def gen_workflow_case(rng, lang: L) -> dict:
             continue
         extra = [f"s{i}" for i in range(nsrc) if f"s{i}" not in used_src and rng.random() < 0.3]
         return {"kind": "workflow", "sources": used_src + extra, "tools": tools,
-                "passthrough": rng.random() < 0.6, "with_vocab": rng.random() < 0.1,
+                "passthrough": rng.random() < 0.6, "with_vocab": False,
                 "flags": gen_flags(rng, False)}
     return None
 
